@@ -102,6 +102,7 @@ func loadUniverse(repo string, name string, rel []string, goos string) (*Univers
 			return nil, fmt.Errorf("load %s: package %s missing", name, r)
 		}
 	}
+	resolveRenames(u.Pkgs)
 	return u, nil
 }
 
@@ -160,7 +161,14 @@ func (u *Universe) funcDecl(rel, name string) (*ast.FuncDecl, *packages.Package)
 	for _, f := range p.Syntax {
 		for _, d := range f.Decls {
 			fd, ok := d.(*ast.FuncDecl)
-			if !ok || fd.Name.Name != fn {
+			if !ok {
+				continue
+			}
+			dn := fd.Name.Name
+			if a, isAlias := declAlias[fd.Name]; isAlias {
+				dn = a
+			}
+			if dn != fn {
 				continue
 			}
 			if recv == "" && fd.Recv == nil {
@@ -208,10 +216,14 @@ func (u *Universe) allFuncDecls(rel string) []*ast.FuncDecl {
 }
 
 func declName(fd *ast.FuncDecl) string {
-	if fd.Recv != nil && len(fd.Recv.List) == 1 {
-		return recvTypeName(fd.Recv.List[0].Type) + "." + fd.Name.Name
+	name := fd.Name.Name
+	if a, ok := declAlias[fd.Name]; ok {
+		name = a
 	}
-	return fd.Name.Name
+	if fd.Recv != nil && len(fd.Recv.List) == 1 {
+		return recvTypeName(fd.Recv.List[0].Type) + "." + name
+	}
+	return name
 }
 
 // ssaFunc finds the SSA function for "Func" or "Type.Method" (pointer or value receiver)
@@ -220,6 +232,21 @@ func (u *Universe) ssaFunc(rel, name string) *ssa.Function {
 	sp := u.SSAPkgs[rel]
 	if sp == nil {
 		return nil
+	}
+	// a renamed function is found under its listed name (rename.go)
+	for obj, old := range funcAlias {
+		if obj.Pkg() != sp.Pkg {
+			continue
+		}
+		full := old
+		if sig, _ := obj.Type().(*types.Signature); sig != nil && sig.Recv() != nil {
+			full = recvNamed(sig.Recv().Type()) + "." + old
+		}
+		if full == name {
+			if f := u.Prog.FuncValue(obj); f != nil {
+				return f
+			}
+		}
 	}
 	if i := strings.Index(name, "."); i >= 0 {
 		tn, mn := name[:i], name[i+1:]
@@ -232,13 +259,24 @@ func (u *Universe) ssaFunc(rel, name string) *ssa.Function {
 			sel := u.Prog.MethodSets.MethodSet(t).Lookup(sp.Pkg, mn)
 			if sel != nil {
 				if f := u.Prog.MethodValue(sel); f != nil && f.Synthetic == "" {
+					if _, renamed := funcAlias[f.Object().(*types.Func)]; renamed {
+						continue // this name now belongs to another (new) function
+					}
 					return f
 				}
 			}
 		}
 		return nil
 	}
-	return sp.Func(name)
+	if f := sp.Func(name); f != nil {
+		if obj, ok := f.Object().(*types.Func); ok {
+			if _, renamed := funcAlias[obj]; renamed {
+				return nil
+			}
+		}
+		return f
+	}
+	return nil
 }
 
 // obj looks a package-level object up
@@ -308,9 +346,13 @@ func (u *Universe) fname(f *ssa.Function) string {
 	if f == nil {
 		return "<nil>"
 	}
-	name := f.Name()
+	base := f.Name()
+	if obj, ok := f.Object().(*types.Func); ok && obj != nil {
+		base = aliasName(obj)
+	}
+	name := base
 	if f.Signature != nil && f.Signature.Recv() != nil {
-		name = recvNamed(f.Signature.Recv().Type()) + "." + f.Name()
+		name = recvNamed(f.Signature.Recv().Type()) + "." + base
 	}
 	if f.Parent() != nil {
 		// anonymous function: Parent$N
